@@ -805,6 +805,7 @@ def run_direct_pack(ctx, h5file):
 
     rng = ctx.rng
     n_ok = 0
+    req, impl, cases = [], [], []
     for dt in ["i8", "i16", "i32", "i64", "u8", "u16", "u32", "u64", "f64", "f32", "b"]:
         for trial in range(ctx.pick(6, 60)):
             shape = rng.choice([(2,), (3,), (2, 2), (1, 3), (2, 1, 2)])
@@ -818,6 +819,9 @@ def run_direct_pack(ctx, h5file):
                 if v is not None:
                     obj[i] = list(v) if as_list else np.array(v, dtype=NPT[dt]).reshape(shape)
             case = {"direct": True, "dtype": dt, "shape": list(shape), "values": json.loads(json.dumps(vals)), "list": as_list}
+            req.append(f"directarr {dt} {size} [" + ",".join("N" if v is None else "[" + ",".join(sv_wire(dt, x) for x in v) + "]"
+                                                           for v in vals) + "]")
+            cases.append(case)
             try:
                 data, attrs = dbm.packSpecialData(obj, "p")
                 g = h5file.create_group(f"direct_{dt}_{trial}")
@@ -826,14 +830,37 @@ def run_direct_pack(ctx, h5file):
             except Exception:  # noqa: BLE001
                 ctx.count(f"direct packSpecialData: rejected at write time ({dt})")
                 ctx.case(("direct", dt, trial, "reject"), nontrivial=True)
+                impl.append("reject")
                 continue
             f = _direct_oracle(ds, g, vals, case, dt)
+            impl.append(_direct_impl_line(ds, g))
             ctx.case(("direct", dt, trial, json.dumps(case["values"])), nontrivial=True)
             if f is not None:
                 ctx.fail(f.key, f.clause, f.case, f.observed, f.expected)
             else:
                 n_ok += 1
     ctx.count("direct packSpecialData array+None round trips held", n_ok)
+    model = lean_run("Pack", req)
+    ctx.compare("Model/Pack.lean replaceNonesArr/readRowArr vs packSpecialData/unpackSpecialData (arrays + None)", cases, model, impl)
+    ctx.evaluations += len(req)
+
+
+def _direct_impl_line(ds, g):
+    from armi.bookkeeping.db import database as dbm
+
+    try:
+        back = dbm.unpackSpecialData(ds[:], dbm.Database._resolveAttrs(ds.attrs, g), "p")
+    except Exception:  # noqa: BLE001
+        return "readfail"
+    out = []
+    for b in back:
+        if b is None:
+            out.append("N")
+        elif getattr(b, "dtype", None) is not None and b.dtype.kind == "O":
+            out.append("[p,[" + ",".join("N" if x is None else sv_canon(x) for x in b.ravel()) + "]]")
+        else:
+            out.append("[" + ",".join(sv_canon(x) for x in np.asarray(b).ravel().tolist()) + "]")
+    return "[" + ",".join(out) + "]"
 
 
 def _direct_oracle(ds, g, vals, case, dt):
